@@ -42,6 +42,9 @@ enum Want {
     Float(f64),
     Err,
     Skip,
+    /// a decimal literal stays a decimal literal or becomes a float: any number that denotes this double
+    /// (in particular, its text must be one that reads back)
+    Denotes(f64),
 }
 
 fn model_num(op: usize, a: &MVal, b: &MVal) -> Want {
@@ -50,7 +53,8 @@ fn model_num(op: usize, a: &MVal, b: &MVal) -> Want {
         return match a {
             MVal::Int(i, _) => Want::Int(-i),
             MVal::Float(f) => Want::Float(-f),
-            // negation of a decimal keeps it a decimal literal; value checked separately
+            // negation of a decimal keeps it a decimal literal
+            MVal::Dec(_) => a.as_f64().map_or(Want::Skip, |f| Want::Denotes(-f)),
             _ => Want::Skip,
         };
     }
@@ -128,6 +132,13 @@ fn check_num_pair(a: &MVal, b: &MVal, sample: bool) -> CaseResult {
                         }
                     }
                     _ => return bad(format!("[{w}] (integer)")),
+                }
+            }
+            Want::Denotes(w) => {
+                let denotes = |s: &str| s.parse::<f64>().map_or(false, |g| g.to_bits() == w.to_bits()) && matches!(jaq_json::read::parse_single(s.as_bytes()).map(|v| MVal::from_val(&v)), Ok(MVal::Dec(_)));
+                match got {
+                    MVal::Arr(x) if x.len() == 1 && (float_same(&x[0], w) || matches!(&x[0], MVal::Dec(s) if denotes(s))) => {}
+                    _ => return bad(format!("a number denoting {w:?} whose text reads back as that number")),
                 }
             }
             Want::Float(w) => match got {
